@@ -19,6 +19,8 @@ pub fn property() -> Property {
         rule: "cases are histories. Naive Bayes: n 4..=60 rows, 1..=4 features, 2..=4 classes (usize or String labels; orderings random / sorted blocks / one singleton class / reverse blocks), \
                a composition of n into 1..=n ordered non-empty batches (cut density 0, 1/32, 5/32, 1/2, 1), smoothing in {0, 1e-9, 1e-3, 0.1, 1}; \
                non-trivial = at least 3 batches and at least one batch that lacks a class of the dataset. \
+               Wide naive-Bayes stratum (data derived from a generated seed by SplitMix): 8/16/64/128 features, per-feature scale 10^s with s in {-3,-2,0,2,3} (all features alike, or one exponent per feature), \
+               2..=3 classes of 2..=5 rows, shuffled or in class blocks, random cuts into batches, Gaussian models instantiated with f32 and f64 (var_smoothing 1e-9), multinomial f64 (alpha in {0, 1e-3, 1}); same non-trivial rule. \
                Mini-batch k-means: 1..=8 batches of 1..=30 rows, k 1..=4, precomputed or seeded (random, k-means++, k-means||) initialisation, distance function L2 / L1 / LInf (2:1:1), tolerance in {1e-6, 1e-2, 0.5, 2, 10}; \
                non-trivial = some cluster receives rows in at least 2 batches. \
                FTRL: 1..=10 batches of 1..=20 rows, 1..=5 features, alpha in {0.005, 0.1, 1}, beta in {0, 1}, l1/l2 in {0, 0.1, 0.5, 1}, seeded initial z, batches applied through fit_with or predict+update; \
@@ -28,6 +30,7 @@ pub fn property() -> Property {
             format!("Gaussian NB: means within {:e}*max|x|, variances within {:e}*(max|x|*spread + spread^2) + 1e-12*|sigma| of the two-pass population estimates; smoothing term = var_smoothing * largest per-feature population variance of the whole dataset (linfa's documented definition); counts and priors exact", nb::TOL_THETA, nb::TOL_SIGMA),
             format!("multinomial NB: feature counts exact, ln((c_j+alpha)/sum(c+alpha)) within {:e}*(1+|v|); with alpha = 0 a zero count must give exactly -inf; a class whose features are all zero with alpha = 0 has an undefined estimate (0/0) and is not judged", nb::TOL_LOGP),
             format!("predictions: a predicted class must reach the maximal log-posterior recomputed from the model's own statistics within {:e}*(1 + magnitude of the terms); it must equal the textbook arg-max only where the textbook margin exceeds {:e}*(1 + magnitude); posterior ties may be broken either way", nb::TOL_MARGIN, nb::CROSS_MARGIN),
+            format!("wide stratum: tolerances are per feature (max|x_j|, spread_j of that feature); f32 models: means within {:e}*max|x_j|, variances within {:e}*(max|x_j|*spread_j + spread_j^2) + {:e}*|sigma|, prior = f32 division, own-statistics arg-max slack {:e}, textbook margin {:e}; data are rounded to f32 before both linfa and the f64 reference see them; the reference log-posterior is a sum of per-feature logarithms in f64", nb::TOL_THETA_F32, nb::TOL_SIGMA_F32, nb::TOL_REL_F32, nb::TOL_MARGIN_F32, nb::CROSS_MARGIN_F32),
             "Gaussian NB with var_smoothing = 0 and a class that has zero variance in a feature: the density is undefined, predictions are not judged (statistics still are)".into(),
             "multinomial posterior uses the convention 0 * ln 0 = 0 (a feature that does not occur in the sample contributes nothing)".into(),
             format!("k-means: counts exact, centroids within {:e}*scale of the row-by-row running mean replayed from the state linfa reported before the batch; assignment by the metric's reduced distance (L2: squared distance; L1, LInf: the distance itself), inertia = mean minimal reduced distance to the pre-batch centroids (relative {:e}); two centroids whose reduced distances differ by <= {:e}*(1+scale^q) (q = 2 for L2, 1 otherwise) count as tied and linfa's own predict on the pre-batch model decides (it must name a tied centroid)", kmeans::TOL_CENTROID, kmeans::TOL_INERTIA, kmeans::TOL_TIE),
@@ -42,6 +45,8 @@ pub fn property() -> Property {
             prop_sub("minibatch_kmeans", 30000, 600000, |t: Tier| kmeans::strategy(t), kmeans::check).chunks(16),
             prop_sub("gaussian_nb", 30000, 600000, |t: Tier| nb::strategy(nb::Kind::Gaussian, t), nb::check).chunks(16),
             prop_sub("multinomial_nb", 24000, 480000, |t: Tier| nb::strategy(nb::Kind::Multinomial, t), nb::check).chunks(16),
+            prop_sub("gaussian_nb_wide", 6000, 60000, |t: Tier| nb::strategy_wide(nb::Kind::Gaussian, t), nb::check_wide).chunks(16),
+            prop_sub("multinomial_nb_wide", 3000, 30000, |t: Tier| nb::strategy_wide(nb::Kind::Multinomial, t), nb::check_wide).chunks(16),
             prop_sub("ftrl", 20000, 400000, |t: Tier| ftrl::strategy(t), ftrl::check).chunks(16),
         ],
     }
